@@ -109,11 +109,31 @@ def _real84_grid(r):
                 continue
             vals.append(c)
         grid[k] = vals
+    if r.random() < 0.3:
+        # one EarlyStopping OBJECT as a grid value (ParameterGrid hands the same object to every point that uses it),
+        # combined with a short and a longer cycle budget
+        grid["early_stopping"] = [{"__early_stopping__": {"patience": r.choice([2, 3, 5, 8]),
+                                                          "min_delta": r.choice([1e-2, 1.0, 10.0])}}]
+        grid["max_cycles"] = [r.choice([1, 2, 3]), r.choice([8, 12, 15])]
+        grid["fitness_error"] = [None]
     fam = r.choice(["cont_multi", "cont_multi", "cont_mixed", "discrete", "permutation", "multi_objective"])
     t = scenario.gen_task(r, fam, dim_max=5)
     t["seed"] = r.choice([0, 1, 42, 12345])
     return {"real84": opt, "grid": grid, "task": t, "minmax": t["minmax"], "mode": "serial", "n_workers": None,
             "n_trials": r.choice([1, 2, 2]), "faults": []}
+
+
+def _materialise(grid):
+    """Replace {"__early_stopping__": {...}} markers by ONE EarlyStopping object each (shared by all grid points)."""
+    import pyvolutionary as pv
+
+    def conv(g):
+        out = {}
+        for k, vals in g.items():
+            out[k] = [pv.EarlyStopping(**v["__early_stopping__"]) if isinstance(v, dict) and "__early_stopping__" in v
+                      else v for v in vals]
+        return out
+    return conv(grid) if isinstance(grid, dict) else [conv(g) for g in grid]
 
 
 def enumerate_grid(grid):
@@ -145,6 +165,8 @@ def execute(desc):
         if not any(v["cls"] == [kind] for v in out):
             out.append({"cls": [kind], "msg": msg})
 
+    desc = copy.deepcopy(desc)
+    desc["grid"] = _materialise(desc["grid"])
     pts = enumerate_grid(desc["grid"])
     # -- by-product (pure): ParameterGrid laws
     from pyvolutionary.hypertuner import ParameterGrid
